@@ -402,3 +402,75 @@ def ctor_invariants(repo, ci):
                 continue
             out.append(frozenset(lits))
     return out
+
+
+def memo_sound(L, repo, rule, modnames):
+    """Memoised methods (functools.cached_property / lru_cache / cache) of the given toolkit modules return what a
+    fresh evaluation would return only if nothing they read changes after the first call.  For every such method: the
+    instance attributes it reads - directly, through other properties and through methods of its class - must not be
+    stored after construction (by any method of the class hierarchy other than __init__, by setattr, or from outside
+    through `obj.attr = ...` anywhere in the toolkit), and it must not draw random numbers.  A memoised value that
+    depends on a field the decoder re-assigns (the header version, the burst) is stale on the second use of the
+    object."""
+    import ast as _ast
+    from pyfront import canon, calls_in
+    n = 0
+    for mn in modnames:
+        if not repo.has_mod(mn):
+            continue
+        mod = repo.mod(mn)
+        for cname, fd, deco in getattr(mod, "memoised", []):
+            n += 1
+            ci = mod.classes.get(cname)
+            if ci is None:
+                continue
+            # classes that share the instance: the hierarchy above and the subclasses in the toolkit
+            family = list(repo.mro(ci))
+            for m2 in repo.tk_modules():
+                for c2 in m2.classes.values():
+                    if c2 not in family and any(x.name == ci.name for x in repo.mro(c2)):
+                        family.append(c2)
+            meths = {}
+            for c_ in reversed(family):
+                for k, v in c_.methods.items():
+                    meths.setdefault(k, []).append((c_, v))
+            reads, seen, work = set(), set(), [fd]
+            rnd = []
+            while work:
+                f_ = work.pop()
+                if id(f_) in seen:
+                    continue
+                seen.add(id(f_))
+                for x in _ast.walk(f_):
+                    if isinstance(x, _ast.Attribute) and isinstance(x.value, _ast.Name) and x.value.id in ("self", "cls") and isinstance(x.ctx, _ast.Load):
+                        if x.attr in meths:
+                            for _c, m_ in meths[x.attr]:
+                                work.append(m_)
+                        else:
+                            reads.add(x.attr)
+                    if isinstance(x, _ast.Call) and canon(x.func).startswith("random."):
+                        rnd.append(canon(x)[:40])
+            writers = {}
+            for c_ in family:
+                for k, m_ in c_.methods.items():
+                    if k == "__init__":
+                        continue
+                    for x in _ast.walk(m_):
+                        if isinstance(x, _ast.Attribute) and isinstance(x.ctx, (_ast.Store, _ast.Del)) and isinstance(x.value, _ast.Name) \
+                                and x.value.id == "self" and x.attr in reads:
+                            writers.setdefault(x.attr, set()).add("%s.%s" % (c_.name, k))
+                        if isinstance(x, _ast.Call) and canon(x.func) == "setattr" and len(x.args) == 3 and canon(x.args[0]) == "self":
+                            a = x.args[1]
+                            if not isinstance(a, _ast.Constant) or a.value in reads:
+                                writers.setdefault(a.value if isinstance(a, _ast.Constant) else "<computed name>", set()).add("%s.%s" % (c_.name, k))
+            for m2 in repo.tk_modules():
+                for x in _ast.walk(m2.tree):
+                    if isinstance(x, _ast.Attribute) and isinstance(x.ctx, (_ast.Store, _ast.Del)) and x.attr in reads \
+                            and not (isinstance(x.value, _ast.Name) and x.value.id == "self"):
+                        writers.setdefault(x.attr, set()).add("%s (`%s = ...`)" % (m2.name, canon(x)))
+            fn = "%s.%s" % (cname, fd.name)
+            L.fn(mod.rel, fn)
+            L.ob(rule, mod.rel, fn, "@%s: the memoised value depends on no attribute that is stored after construction" % deco,
+                 {}, {k: sorted(v)[:3] for k, v in sorted(writers.items())}, not writers, fd.lineno)
+            L.ob(rule, mod.rel, fn, "@%s: the memoised value is not random" % deco, [], rnd[:3], not rnd, fd.lineno)
+    return n
